@@ -945,3 +945,61 @@ vk_harness!(c19_jump_into_program_with_errors_stops, {
 vk_harness!(c19_direct_jump_still_works_with_errors, {
     jump_into_program_with_errors(2);
 });
+
+//@ prop: C17
+//@ tier: quick
+//@ unwind: 12
+//@ caps: VEC=6
+//@ encodes: Runtime::do_input (reply splitting at commas outside quotes, field count check, staging on the stack)
+//@ bounds: reply of 0..=3 characters, each a comma, a double quote or a letter; INPUT with 1, 2 or 3 variables
+vk_harness!(c17_reply_is_split_at_commas_outside_quotes, {
+    let mut r = Runtime::default();
+    r.state = State::Input;
+    let nvars = 1 + vk::any_below(3) as i16;
+    r.pc = 9;
+    r.stack.push(Val::Integer(nvars)).unwrap();
+    let n = vk::any_below(4) as usize;
+    let mut chars = [0u8; 3];
+    let mut s = String::new();
+    let mut i = 0;
+    while i < 3 {
+        let c = match vk::any_below(3) {
+            0 => b',',
+            1 => b'"',
+            _ => b'x',
+        };
+        chars[i] = c;
+        if i < n {
+            s.push(c as char);
+        }
+        i += 1;
+    }
+    let got = r.do_input(s.as_str());
+    vk_check!(got.is_ok(), "C17: splitting a reply never fails");
+    // reference: commas outside double quotes separate fields
+    let mut commas = 0;
+    let mut inq = false;
+    let mut j = 0;
+    while j < 3 {
+        if j < n {
+            if chars[j] == b'"' {
+                inq = !inq;
+            } else if chars[j] == b',' && !inq {
+                commas += 1;
+            }
+        }
+        j += 1;
+    }
+    let fields = if nvars == 1 { 1 } else { commas + 1 };
+    if fields as i16 == nvars {
+        vk_check!(code_of_state(&r.state) == 7, "C17: a reply with exactly as many fields as variables is accepted");
+        vk_check!(r.stack.len() == 2 + nvars as usize, "C17: one staged field per variable (above the statement's frame)");
+    } else {
+        vk_check!(code_of_state(&r.state) == 6, "C17: a wrong field count gives REDO FROM START");
+        vk_check!(r.stack.len() == 1, "C17: a rejected reply stages nothing (the retry is atomic)");
+    }
+    vk_cover!(nvars == 2 && commas == 1, "reach: two fields for two variables");
+    vk_cover!(nvars == 1 && commas > 0, "reach: single variable takes the whole reply");
+    vk_cover!(nvars == 3 && fields != 3, "reach: redo");
+    core::mem::forget(r);
+});
